@@ -168,6 +168,10 @@ def qdump_diff(model, impl):
     return None
 
 
+class ProbeInconsistent(Exception):
+    pass
+
+
 def probe_minc_geometry(T, fr, spacing, nplanes):
     """d[0..L-1], a[0..L-2] as the real minc computes them: run it on a one-block grid of volume 1, where the
     connection areas are 1.0 * a[m-1] and the distances [d[m-1], d[m]]"""
@@ -177,7 +181,7 @@ def probe_minc_geometry(T, fr, spacing, nplanes):
     d = [float(cons[0].distance[0])] + [float(c.distance[1]) for c in cons]
     a = [float(c.area) for c in cons]
     for k in range(1, len(cons)):
-        if float(cons[k].distance[0]) != d[k]: raise RuntimeError('probe distances inconsistent')
+        if float(cons[k].distance[0]) != d[k]: raise ProbeInconsistent('connection %d of the chain has distances %r, the previous one %r' % (k, cons[k].distance, cons[k - 1].distance))
     return d, a
 
 
@@ -497,7 +501,11 @@ def minc_worker(args):
             st.skipped['geometry-construction-failed:' + exn_name(e)] += 1; continue
         if any(not NAME_OK.match(b.name) for b in g.blocklist): st.skipped['name-alphabet'] += 1; continue
         nlev = rng.randint(2, 6)
-        fr = [rng.choice([0.05, 0.1, 0.2, 0.3, 1.0, 2.5, 3, rng.uniform(0.01, 3.)]) for _ in range(nlev)]
+        fmode = rng.choice(['mixed', 'mixed', 'small', 'unit'])
+        if fmode == 'small': fr = [rng.choice([0.02, 0.05, 0.1, 0.15]) for _ in range(nlev)]             # sum < 1
+        else: fr = [rng.choice([0.05, 0.1, 0.2, 0.3, 1.0, 2.5, 3, rng.uniform(0.01, 3.)]) for _ in range(nlev)]
+        if fmode == 'unit': fr = [f / sum(fr) for f in fr]                                              # sum = 1 up to rounding
+        fsum = sum(fr)
         nplanes = rng.randint(1, 3)
         spacing = rng.choice([50., 10., 100., [30., 40., 50.][:nplanes], rng.uniform(1., 300.)])
         names = [b.name for b in g.blocklist]
@@ -510,18 +518,30 @@ def minc_worker(args):
             elif rng.random() < 0.3:
                 sel = [g.block[n] for n in sel]; style = 'partial(block objects)'          # block objects are accepted too
         atmos_volume = rng.choice([1.e25, 1.e25, 1.e25, 300., 1000.])
-        if rng.random() < 0.2: g.rocktypelist[0].compressibility = 1.e-9       # not copied by duplicate_rock
+        if rng.random() < 0.3:                                      # a rock type that is not the default one
+            rt = g.rocktypelist[0]
+            rt.density, rt.porosity, rt.conductivity, rt.specific_heat = rng.choice([2500., 2650.]), rng.choice([0.05, 0.25]), rng.choice([2.0, 2.5]), rng.choice([800., 1000.])
+            rt.permeability = np.array([rng.choice([1.e-14, 2.e-13]), 5.e-15, rng.choice([1.e-16, 3.e-15])])
+            if rng.random() < 0.6: rt.compressibility = 1.e-9       # not copied by duplicate_rock
+            case_rock = [rt.density, rt.porosity, rt.conductivity, rt.specific_heat, [float(v) for v in rt.permeability], rt.compressibility]
+        else: case_rock = None
         case = {'geo': list(params), 'volume_fractions': fr, 'spacing': spacing, 'num_fracture_planes': nplanes,
                 'blocks': None if sel is None else [b if isinstance(b, str) else b.name for b in sel],
-                'blocks_as_objects': bool(sel) and not isinstance(sel[0], str), 'atmos_volume': atmos_volume}
+                'blocks_as_objects': bool(sel) and not isinstance(sel[0], str), 'atmos_volume': atmos_volume, 'rock': case_rock}
         try:
             with time_limit(CASE_SECONDS): d_, a_ = probe_minc_geometry(T, fr, spacing, nplanes)
         except CaseTimeout:
             st.cases += 1
             st.failure('minc:does-not-return', case, 'minc on a one-block grid did not return within %d s' % CASE_SECONDS, 'minc completes'); continue
+        except ProbeInconsistent as e:
+            # the model's reading of the chain (connection m carries [d[m-1], d[m]]) does not fit the implementation
+            st.cases += 1; st.ndis += 1
+            if len(st.disagree) < 20: st.disagree.append({'case': case, 'step': 0, 'model': 'consecutive nested connections share the distance of the common continuum', 'impl': str(e)})
+            continue
         except Exception as e:
             st.skipped['minc-geometry-raises:' + exn_name(e)] += 1; continue
         st.kinds['levels:%d' % nlev] += 1; st.kinds['planes:%d' % nplanes] += 1
+        st.kinds['fractions-sum:' + ('<1' if fsum < 0.999 else '>1' if fsum > 1.001 else '=1')] += 1
         st.kinds[style] += 1
         st.kinds['wf-hypothesis-holds' if wf_real(g) else 'wf-hypothesis-fails'] += 1
         st.cases += 1
@@ -588,7 +608,6 @@ def minc_check(g, case, sel):
         if len(vols) == L and not close(sum(vols), V):
             out.append(('minc:volume-split', 'continua of %r sum to %r, original volume %r' % (n, sum(vols), V), 'the continua of a block add up to its original volume'))
         for k in range(1, L): expected_new.append((chain[k - 1], chain[k]))
-        if out: break
     # chain: exactly these connections were added, in this orientation, and each continuum's record agrees
     newkeys = [tuple(b.name for b in c.block) for c in g.connectionlist[nold:]]
     if sorted(newkeys) != sorted(expected_new):
@@ -753,8 +772,8 @@ def run(ctx):
                 '(1) 1-4 random calls of reorder (random permutation of blocks and/or connections, a random 0/20/50/100% of the connections listed with their blocks swapped, '
                 'or reorder by the geometry lists) and rename_blocks (fresh names, all blocks, swaps, cycles, chains; fix_blocknames on and off), each step compared with the '
                 'extracted model (payload dump) and with the physical signature before; a sample is also written to a TOUGH2 data file and read back; '
-                '(2) minc with 2-6 volume fractions (un-normalised, integers and floats), 1-3 fracture-plane sets, assorted spacings, all blocks or a random selection (names or block '
-                'objects, sometimes with a repeated name: refusal), three atmos_volume cut-offs, a rock type with non-default secondary attributes in 20%: the whole grid afterwards is '
+                '(2) minc with 2-6 volume fractions (summing to less than, exactly and more than 1; integers and floats), 1-3 fracture-plane sets, assorted spacings, all blocks or a random selection (names or block '
+                'objects, sometimes with a repeated name: refusal), three atmos_volume cut-offs, a non-default rock type in 30%: the whole grid afterwards is '
                 'compared with the extracted MincModel and the three MINC clauses are evaluated on the real grid; a sample is written to a data file and read back; '
                 '(3) embed of a small rectangular sub-grid into a random host block (12% with colliding block names, some hosts too small, some atmosphere hosts): result grid and the '
                 'aliased self grid compared with the model, total volume / host volume / structure evaluated on the real result. A case is one grid with its call sequence / parameter '
@@ -814,6 +833,10 @@ def replay(ctx, data):
     if kind == 'minc':
         sel = case['blocks']
         if sel is not None and case.get('blocks_as_objects'): sel = [g.block[n] for n in sel]
+        if case.get('rock'):
+            rt = g.rocktypelist[0]
+            rt.density, rt.porosity, rt.conductivity, rt.specific_heat, perm, rt.compressibility = case['rock']
+            rt.permeability = np.array(perm)
         out, exc = minc_check(g, case, sel)
         for key, obs, req in out: print('  %s: %s' % (key, obs))
         if not out and data.get('finding_key', '').startswith('write-read'):
